@@ -182,6 +182,18 @@ class Writer:
             f'seg[{len(self.segments)}]={self.get_segment_addresses_repr(segment_start, segment_length)}'
         )
 
+        for field_name, field_value in (
+            ('segment-start', segment_start),
+            ('segment-length', segment_length),
+            ('data-start', data_start),
+            ('data-length', data_length),
+        ):
+            if field_value < 0 or field_value >= (1 << 64):
+                raise FlipJumpWriteFjmException(
+                    f"{field_name} must be a 64bit non-negative number, not {field_value} "
+                    f"(in seg[{len(self.segments)}])."
+                )
+
         if segment_length <= 0:
             raise FlipJumpWriteFjmException(f"segment-length must be positive (in {segment_addresses_str}).")
 
@@ -200,6 +212,12 @@ class Writer:
             raise FlipJumpWriteFjmException(
                 f"data-length must be even - an integer number of ops, like the reader requires "
                 f"(got {data_length} in {segment_addresses_str})."
+            )
+
+        if data_start + data_length > len(self.data):
+            raise FlipJumpWriteFjmException(
+                f"segment data range [{data_start}, {data_start + data_length}) exceeds the data added so far "
+                f"({len(self.data)} words) (in {segment_addresses_str})."
             )
 
         self._validate_segment_not_overlapping(segment_start, segment_length, data_start, data_length)
